@@ -62,7 +62,7 @@ func init() {
 			"canonical alternatives: running thread first, then ascending ids; a schedule is identified by its choice vector. " +
 			"evaluations = distinct schedules executed on the real implementation; non-trivial = schedules with at least one preemption " +
 			"(a thread was switched out in the middle of its program); distinct outcomes = distinct (case, observation logs): one per case when the property holds. " +
-			"Families <scenario> enumerate the quick bound (1 preemption; 2 for copy-only) in both tiers; the thorough-only families <scenario>+ extend the cases to bound 2 " +
+			"Families <scenario> enumerate the quick bound (1 preemption) in both tiers; the thorough-only families <scenario>+ extend the cases to bound 2 " +
 			"(3 for bodies of at most 60 scheduling points and for copy-only) and count only the schedules beyond the quick bound; work is sharded by the subtree below the first preemption. " +
 			"sharing: reflective heap walk of the runtimes of a case at rest and with all threads stopped mid-program. " +
 			"After the threads of a case have finished, every runtime and the template are observed at rest (own stack depth limit, trace limit, random source, debugger handler; the template's user state; the function queued on the template's Interrupt channel before the copies were taken must still be queued). " +
@@ -136,12 +136,10 @@ func plans(scenario string, thorough bool, steps map[int]int) []plan {
 			}
 		}
 	case ScCopyBefore, ScCopyDuring:
-		for i := 0; i < nb; i++ {
-			bd := 1
-			if i%2 == 0 {
-				bd = b12
-			}
-			out = append(out, plan{Spec{scenario, [][]int{{i}, {(i + 1) % nb}}}, bd})
+		// neighbouring bodies (i, i+1) for even i: every body takes part; the
+		// copy threads are long (body + Probe), so the case list is kept short
+		for i := 0; i < nb; i += 2 {
+			out = append(out, plan{Spec{scenario, [][]int{{i}, {(i + 1) % nb}}}, b12})
 		}
 	case ScScript, ScProgram:
 		for i := 0; i < nb; i++ {
@@ -161,7 +159,7 @@ func plans(scenario string, thorough bool, steps map[int]int) []plan {
 			out = append(out, plan{Spec{scenario, [][]int{{i, j}, {j, i}}}, bd})
 		}
 	case ScScript3:
-		for i := 0; i < nb; i++ {
+		for i := 0; i < nb; i += 2 {
 			bd := 1
 			if thorough && isShort(steps, i) {
 				bd = 2
@@ -182,7 +180,7 @@ func plans(scenario string, thorough bool, steps map[int]int) []plan {
 			out = append(out, plan{Spec{scenario, [][]int{rep(i, 3), rep(i, 3)}}, bd})
 		}
 	case ScCopyOnly:
-		bd := 2
+		bd := 1
 		if thorough {
 			bd = 3
 		}
